@@ -331,3 +331,13 @@ def tail_items(pt, rng, n):
             return pt.Seq(pt.Pop(behind(I(1))), tail(I(1)), I(1))
         it = Item("tail", "app", v, rand_opts(rng, v), {"form": form, "where": where, "exit": exit_kind, "leaving": leaving})
         yield _compile(pt, it, make)
+
+
+def declared_type_items(pt, rng):
+    """Subroutines of every declared return type (none / uint64 / bytes / anytype, one of them recursive) called with pending
+    operands, at every calling convention."""
+    from .checks import c02
+    for v, fp in ((4, None), (5, None), (7, None), (8, None), (8, False), (9, None), (10, None), (10, True)):
+        it = Item("declared_type", "app", v, (False, fp), {"version": v, "fp": fp})
+        it.anytype = True
+        yield _compile(pt, it, lambda: c02.declared_type_program(pt))
